@@ -135,12 +135,7 @@ def run(tier):
     common.import_pregex()
     import pregex.core.pre as pre
     P = pre.Pregex
-    run.functions = common.src_fingerprint([P._Pregex__infer_type, P._concat_conditional_group, P._quantify_conditional_group,
-                                            P._assert_conditional_group, P.concat, P.either, P.enclose, P.capture, P.group,
-                                            P.optional, P.indefinite, P.one_or_more, P.exactly, P.at_least, P.at_most,
-                                            P.at_least_at_most, P.followed_by, P.preceded_by, P.enclosed_by, P.not_followed_by,
-                                            P.not_preceded_by, P.not_enclosed_by, P.match_at_start, P.match_at_end,
-                                            P.match_at_line_start, P.match_at_line_end, P.__add__, P.__radd__, P.__mul__, P.__rmul__])
+    run.functions = common.src_fingerprint(common.resolve([(P, "_Pregex__infer_type"), (P, "_concat_conditional_group"), (P, "_quantify_conditional_group"), (P, "_assert_conditional_group"), (P, "concat"), (P, "either"), (P, "enclose"), (P, "capture"), (P, "group"), (P, "optional"), (P, "indefinite"), (P, "one_or_more"), (P, "exactly"), (P, "at_least"), (P, "at_most"), (P, "at_least_at_most"), (P, "followed_by"), (P, "preceded_by"), (P, "enclosed_by"), (P, "not_followed_by"), (P, "not_preceded_by"), (P, "not_enclosed_by"), (P, "match_at_start"), (P, "match_at_end"), (P, "match_at_line_start"), (P, "match_at_line_end"), (P, "__add__"), (P, "__radd__"), (P, "__mul__"), (P, "__rmul__")]))
     d1, d2, d3, t3 = family(tier)
     rnd = random.Random(common.SEED)
     if tier == "quick":
